@@ -269,9 +269,11 @@ def handle_failures(pid, tier, scratch, report, kctx):
                       repo_head=git_head(), created=time.strftime('%Y-%m-%dT%H:%M:%SZ', time.gmtime()))
         suffix = ''
         if f['backend'] == 'kani':
-            pb = ku.playback(kctx['xt_dir'], kctx['hdir'], f['fq'], reg.KANI_MODULES[f['module']]['file'])
+            pb = ku.playback(kctx['xt_dir'], kctx['hdir'], f['fq'], reg.KANI_MODULES[f['module']]['file'],
+                             harness_modpath=reg.KANI_MODULES[f['module']]['modpath'], harness_src_rel=reg.KANI_MODULES[f['module']]['src'])
             replay.update(harness=f['fq'], module=f['module'], playback_test=pb.get('test_src'), playback_test_name=pb.get('test_name'),
-                          playback_reproduced=pb['reproduced'], playback_panic=pb.get('panic'), playback_output=pb.get('output'))
+                          playback_reproduced=pb['reproduced'], playback_panic=pb.get('panic'), playback_output=pb.get('output'),
+                          stubs_applied_natively=pb.get('stubs_applied_natively', []), stubs_not_applied=pb.get('stubs_not_applied', []))
             if not pb['reproduced']:
                 # CBMC's trace is bit-precise for the harness as written, so the violation stands; the
                 # concrete values are in playback_test, but they did not reproduce natively (stubs are
@@ -288,7 +290,8 @@ def handle_failures(pid, tier, scratch, report, kctx):
                 os.makedirs(sdir, exist_ok=True)
                 kc = run_kani_units(pid, 'thorough', sdir, sub, only=f['paired_kani'])
                 for sf in sub['failures']:
-                    pb = ku.playback(kc['xt_dir'], kc['hdir'], sf['fq'], reg.KANI_MODULES[sf['module']]['file'])
+                    pb = ku.playback(kc['xt_dir'], kc['hdir'], sf['fq'], reg.KANI_MODULES[sf['module']]['file'],
+                                     harness_modpath=reg.KANI_MODULES[sf['module']]['modpath'], harness_src_rel=reg.KANI_MODULES[sf['module']]['src'])
                     if pb['reproduced']:
                         found = dict(harness=sf['fq'], module=sf['module'], playback_test=pb.get('test_src'), playback_test_name=pb.get('test_name'),
                                      playback_panic=pb.get('panic'), playback_output=pb.get('output'), failed=sf['fails'])
@@ -406,6 +409,10 @@ def replay_file(path):
         hdir = ku.inject(xt_dir, scratch, [m], reg.attr_inserts_for([r['module']]))
         with open(os.path.join(hdir, m['file']), 'a') as f:
             f.write('\n' + r['playback_test'] + '\n')
+        try:
+            ku.apply_local_stubs(xt_dir, hdir, m['file'], r['harness'].split('::')[-1], m['modpath'], m['src'])
+        except Exception as e:
+            print('note: stubs not applied natively:', e)
         pb = ku.run_playback_test(xt_dir, r['playback_test_name'], r['playback_test'])
         print(pb['output'][-3000:])
         if pb['reproduced']:
